@@ -116,7 +116,8 @@ def run(ctx):
             if t % 4 == 0 and failed_sync:
                 cfg2 = dict(cfg2, cmdline_skip=list(cfg2["cmdline_skip"]) + [failed_sync[0]], skip=list(cfg2["skip"]) + [failed_sync[0]])
             res2 = cr.run(cfg2, detach=False, resume_dir=res["builddir"], root=res["root"], keep_root=True)
-            ran_ever = set(started) | set(nm for k, nm, _, _ in res2["events"] if k == "start")
+            # (the steps the resumed invocation itself ran: the probe log also holds the first run's events)
+            ran_ever = set(nm for k, nm, _, _ in res2["events"][len(res["events"]):] if k == "start")
             for r in res2["rows"]:
                 if r["skip"] == 1 and (r["log"] or r["name"] in ran_ever):
                     ctx.violation("after resuming%s: the record of step %s is a skip record %s" % (
@@ -134,24 +135,28 @@ def run(ctx):
                 ctx.violation("resumed invocation reused a log file name", dict(rows=res2["rows"]))
             kinds["resumed"] = kinds.get("resumed", 0) + 1
     # ---- the same on a fixed history: step two fails, the invocation is resumed with -s two
-    for t in range(ctx.n(1, 6)):
+    for t in range(ctx.n(2, 8)):
         e2 = rng.choice([1, 3, 7])
-        fcfg = dict(steps=[("one", False, 0, 0), ("two", False, 0, e2), ("three", bool(t % 2), 0, 0)], skip=[], cmdline_skip=[], ncpu=2)
+        # the failing step is the second one, or the very first (the resume then starts at step 1, where the
+        # entry scripts do what they do for a fresh invocation: write the skip records)
+        bad = "one" if t % 2 == 0 else "two"
+        fcfg = dict(steps=[("one", False, 0, e2 if bad == "one" else 0), ("two", False, 0, e2 if bad == "two" else 0), ("three", bool(t % 4 >= 2), 0, 0)],
+                    skip=[], cmdline_skip=[], ncpu=2)
         r1 = cr.run(fcfg)
         if not r1["builddir"]:
             continue
-        fcfg2 = dict(fcfg, steps=[("one", False, 0, 0), ("two", False, 0, 0), ("three", bool(t % 2), 0, 0)], skip=["two"], cmdline_skip=["two"])
+        fcfg2 = dict(fcfg, steps=[("one", False, 0, 0), ("two", False, 0, 0), ("three", bool(t % 4 >= 2), 0, 0)], skip=[bad], cmdline_skip=[bad])
         r2 = cr.run(fcfg2, resume_dir=r1["builddir"], root=r1["root"], keep_root=True)
         kinds["resumed-with-s"] = kinds.get("resumed-with-s", 0) + 1
-        ran = set(nm for k, nm, _, _ in r2["events"] if k == "start")
+        ran = set(nm for k, nm, _, _ in r2["events"][len(r1["events"]):] if k == "start")
         for r in r2["rows"]:
             if r["skip"] == 1 and (r["log"] or r["name"] in ran):
-                ctx.violation("canvas -r DIR -s two after step two failed with exit %d: the record of step %s is a skip record %s" % (
-                    e2, r["name"], "naming the log %s" % r["log"] if r["log"] else "although the step ran"), dict(rows=r2["rows"], first_run_rows=r1["rows"]))
+                ctx.violation("canvas -r DIR -s %s after step %s failed with exit %d: the record of step %s is a skip record %s" % (
+                    bad, bad, e2, r["name"], "naming the log %s" % r["log"] if r["log"] else "although the resumed invocation ran the step"), dict(rows=r2["rows"], first_run_rows=r1["rows"]))
                 break
         rows2 = {r["name"]: r for r in r2["rows"]}
-        if "two" in ran and "two" in rows2 and rows2["two"]["skip"] == 0 and rows2["two"]["exit"] not in (0, e2):
-            ctx.violation("resumed step two has exit %s on record" % rows2["two"]["exit"], dict(rows=r2["rows"]))
+        if bad in ran and bad in rows2 and rows2[bad]["skip"] == 0 and rows2[bad]["exit"] not in (0, e2):
+            ctx.violation("resumed step %s has exit %s on record" % (bad, rows2[bad]["exit"]), dict(rows=r2["rows"]))
     # ---- a second invocation while the first one runs
     for t in range(ctx.n(4, 40)):
         root = os.path.join(ctx.scratch, "second%d" % t)
